@@ -58,10 +58,82 @@ def run(ctx):
     fold(ctx, g)
     same_relation(ctx, g)
     ranges(ctx, g)
+    quotient_shape(ctx, g)
     # morphism(other, img0) answers None for a base image that is not a chamber only because other.m(k, k + 1, img0) is None there;
     # fundamental_group's dummy ridge (0, 0, 0) relies on the same for covers
     from . import c02
     c02.none_outside_ranges(ctx, g)
+
+
+def quotient_shape(ctx, g):
+    """minimal_image: the classes of the folded partition are numbered 1.. in order of their first member (src2img[rep] assigned once, img2src its
+    inverse on representatives, every chamber gets its class's number), and the quotient has next - 1 chambers with
+    op'(i, c) = src2img[ds.op(i, img2src[c])] and m'(i, c) = ds.m(i, i + 1, img2src[c]) - operations and degrees of a representative"""
+    ctx.clauses.append("minimal_image: classes numbered consecutively through their representative; quotient operations and degrees read at the representative (T9)")
+    b = ctx.body("derived::minimal_image")
+    ctx.scan(ctx.facts.with_closures(b.name))
+    ds = ("param", 1, b.debug.get(1, ""))
+    rets = [strip(norm(d, g)) for dbb, d in b.all_defs_origins(0)]
+    rets += [strip(norm(b.local_origin(t["dest"]["l"]), g)) for bi, t in b.calls("derived::build_sym_using_ms") if t["dest"]["l"] == 0]
+    q = [r for r in rets if is_call(r, "derived::build_sym_using_ms")]
+    if not q:
+        q = [("call", "derived::build_sym_using_ms", tuple(strip(norm(b.origin(a), g)) for a in t["args"])) for bi, t in b.calls("derived::build_sym_using_ms")]
+    if len(q) != 1:
+        ctx.ob("T9-quotient-shape", b.name, "quotient", "violation", "the quotient is not built by one build_sym_using_ms(build_set(..), ..)")
+        return
+    maps = renumbered_builder(ctx, "T9-quotient-shape", b, g, outer="derived::build_sym_using_ms", acc="DSet::m", ret=q[0])
+    if maps is None:
+        return
+    src2img, img2src = maps
+    bad = None
+    bs = strip(q[0][2][0])
+    stores = []
+    for bi, si, s in b.assigns():
+        if [e["k"] for e in s["place"]["p"]] == ["deref"]:
+            tgt = strip(norm(b.local_origin(s["place"]["l"]), g))
+            if is_call(tgt, "IndexMut::index_mut"):
+                stores.append((bi, strip(tgt[2][0]), strip(tgt[2][1]), strip(norm(b.rv_origin(s["rv"]), g))))
+    s_src = [x for x in stores if x[1] == src2img]
+    s_img = [x for x in stores if x[1] == img2src]
+    if len(s_src) != 2 or len(s_img) != 1:
+        bad = "not (src2img[e] = next; img2src[next] = e; src2img[d] = src2img[e])"
+    else:
+        ib, _, nk, ev = s_img[0]
+        first = [x for x in s_src if x[3] == nk]
+        rest = [x for x in s_src if x not in first]
+        # img2src[next] may hold the representative or the member at hand: operations and degrees are the same on every member of a class
+        if len(first) != 1 or len(rest) != 1 or nk[0] != "local" or ev not in (first[0][2], rest[0][2]):
+            bad = "the class number is not stored at the representative and inverted: src2img[e] = next, img2src[next] = e"
+        else:
+            e = first[0][2]
+            dd = rest[0][2]
+            okrep = is_call(e, "Partition::<T>::find") or (e[0] == "local" and any(is_call(strip(norm(x, g)), "Partition::<T>::find") for _, x in b.all_defs_origins(e[1])))
+            et = e if is_call(e, "Partition::<T>::find") else [strip(norm(x, g)) for _, x in b.all_defs_origins(e[1])][0]
+            okd = okrep and strip(et[2][1]) == dd
+            val = as_index(rest[0][3])
+            fa = [atom_norm(x, g) for x in b.facts_at(first[0][0])]
+            fresh = any(x[0] == "rel" and x[1] == "Eq" and as_index(x[2]) and as_index(x[2])[0] == src2img and strip(as_index(x[2])[1]) == e and eval_int(x[3]) == 0 for x in fa)
+            defs = [(dbb, strip(norm(d, g))) for dbb, d in b.all_defs_origins(nk[1])]
+            inc = [dbb for dbb, d in defs if unov_deep(d) == ("binop", "Add", nk, ("int", 1))]
+            ini = [d for dbb, d in defs if eval_int(d) == 1]
+            rd = loop_range_of_payload(b, dd, g)
+            size_t = unov_deep(strip(bs[2][0]))
+            if not okd:
+                bad = "the representative is not p.find(&d) of the chamber being numbered"
+            elif not (val and val[0] == src2img and strip(val[1]) == e):
+                bad = "a chamber does not get the number of its representative (src2img[d] = src2img[e])"
+            elif not fresh:
+                bad = "a new class number is not taken exactly when the representative has none yet (src2img[e] == 0)"
+            elif len(inc) != 1 or len(ini) != 1 or inc[0] not in b.fwd(first[0][0]):
+                bad = "the class counter is not `next = 1; next += 1` once per new class"
+            elif not (rd and eval_int(rd[0]) == 1 and rd[2] and is_call(strip(rd[1]), "::size")):
+                bad = "not every chamber 1..=size() is assigned a class number"
+            elif size_t != ("binop", "Sub", nk, ("int", 1)):
+                bad = "the quotient does not have next - 1 chambers: %s" % show(size_t, 1)[:40]
+            elif not (b.dominates(first[0][0], rest[0][0]) or rest[0][0] in b.fwd(first[0][0])):
+                bad = "a chamber is numbered before its class has a number"
+    ctx.ob("T9-quotient-shape", b.name, "class numbering", "ok" if not bad else "violation",
+           "e = p.find(&d); new number iff src2img[e] == 0 (inverse stored); src2img[d] = src2img[e]; all chambers; next - 1 classes" if not bad else bad)
 
 
 def morphism(ctx, g):
